@@ -194,7 +194,10 @@ def check_tensor(c):
 def check_qtt(c):
     res = Res()
     seed = c.get('seed', 0)
-    Y = space.tt_case(c, seed)
+    if c['pat'] == 'geom':          # outer product of geometric progressions: rank 1 as a TT-tensor AND as a QTT-tensor, so the search is exact for any k
+        Y = [((-1.0) ** k_ * (1.5 + k_) * (c['rho'][k_] ** np.arange(n_))).reshape(1, n_, 1) for k_, n_ in enumerate(c['shape'])]
+    else:
+        Y = space.tt_case(c, seed)
     A = ref.dense(Y)
     shape = list(A.shape)
     N = A.size
@@ -214,7 +217,7 @@ def check_qtt(c):
         res.check(abs(y1 - A[tuple(i1)]) <= t and abs(y2 - A[tuple(i2)]) <= t, 'qtt.entry', case,
                   lambda: 'values (%r, %r) vs entries (%r, %r)' % (y1, y2, A[tuple(i1)], A[tuple(i2)]))
         res.check(y1 <= y2, 'qtt.order', case, 'min > max')
-        if k >= N:
+        if k >= N or c['pat'] == 'geom':          # nothing pruned, or a tensor of QTT-rank 1 (exact for any k)
             res.check(y1 <= A.min() + eps and y2 >= A.max() - eps, 'qtt.full', case,
                       lambda: '(min,max)=(%.12g,%.12g) true (%.12g,%.12g)' % (y1, y2, A.min(), A.max()), ['full'])
         res.nt((c['shape'], c['ranks'], c['pat'], k, 'qtt'))
@@ -338,6 +341,9 @@ def strata(tier, seed):
                     N = (2 ** q) ** d
                     qs.append(dict(shape=[2 ** q] * d, ranks=rk, pat=pat, ks=[1, 2, 5, N, N + 1], seed=seed))
     qs = [q for q in qs if len(q['shape']) >= 2]
+    for n_ in (256, 512, 1024):              # rank 1 is exact for every k: long modes (q = 8, 9, 10 bits per index)
+        for rho in ([1.003, 0.996], [0.997, 1.002], [1.001, 1.004]):
+            qs.append(dict(shape=[n_, n_], ranks=[1, 1, 1], pat='geom', rho=rho, ks=[1, 3], seed=seed))
     yield Stratum('quantised optimum search', qs, 'qtt', seq=(tier == 'quick'), size=len(qs), chunk=2, bounds={'q': [1, 3]})
     fs = []
     for d in (2, 3):
@@ -347,7 +353,11 @@ def strata(tier, seed):
             for tag in range(3 if tier == 'quick' else 8):
                 fs.append(dict(n=n, d=d, kind='gen', tag=tag, ks=list(range(1, 11)), seed=seed))
                 fs.append(dict(n=n, d=d, kind='gen', tag=tag, ks=[1, 3, 10], seed=seed, shared=True))
-    for vec in ([-0.3, 1.0, 0.5], [0.3, 1.0, -0.5], [-0.6, 0.5, 0.5, 0.2], [0.45, -1.0, 0.4], [-0.2, 0.0, 1.0], [0.7, 1.0]):
+    dl = 4e-7
+    edge = [[3 - (1 + dl) ** 2 - 0.5, 2 * (1 + dl), -0.5], [3 - (1 + dl) ** 2 - 0.5, -2 * (1 + dl), -0.5],          # stationary point 4e-7 outside the cube, maximum on the border
+            [3 - (1 - dl) ** 2 - 0.5, 2 * (1 - dl), -0.5],                                                              # ... 4e-7 inside it
+            [1.0, 0.0, -0.6, 0.0, 0.1], [0.2, 0.0, 1.0, 0.0, 0.3], [-1.0, 0.0, 0.4]]                                   # even factors: a critical point exactly at 0
+    for vec in ([-0.3, 1.0, 0.5], [0.3, 1.0, -0.5], [-0.6, 0.5, 0.5, 0.2], [0.45, -1.0, 0.4], [-0.2, 0.0, 1.0], [0.7, 1.0]) + tuple(edge):
         for d in (2, 3, 4):
             for shared in (False, True):
                 fs.append(dict(n=len(vec), d=d, kind='crafted', vec=vec, ks=[1, 2, 5], seed=seed, shared=shared))
